@@ -164,23 +164,23 @@ example : let rank : Nat → Nat := fun i => [2, 0, 1].getD i 9
 /-! ## base-phosphate / base-ribose -/
 
 theorem bph_tables_snapshot :
-    Gen.bphTable = Spec.PairsChemistry.bphTable ∧ Gen.mergeRules = Spec.PairsChemistry.mergeRules ∧
-    Gen.bphLo = -90 ∧ Gen.bphHi = 90 ∧ Gen.hbondMaxDistance = 4 := by decide
+    Gen.Ann.bphTable = Spec.PairsChemistry.bphTable ∧ Gen.Ann.mergeRules = Spec.PairsChemistry.mergeRules ∧
+    Gen.Ann.bphLo = -90 ∧ Gen.Ann.bphHi = 90 ∧ Gen.Ann.hbondMaxDistance = 4 := by decide
 
 /-- every class number the table or a merge rule can produce has a `BPh` and a `BR` enum member, and the
 enum values are `kBPh` / `kBR` for k = 0…9 -/
 theorem bph_classes_named :
-    (∀ e ∈ Gen.bphTable, e.2.2.2.2.1 ∈ Gen.bphClassNumbers ∧ e.2.2.2.2.2 ∈ Gen.bphClassNumbers) ∧
-    (∀ r ∈ Gen.mergeRules, r.2.2 ∈ Gen.bphClassNumbers) ∧
-    Gen.bphValues = Gen.bphClassNumbers.map (fun k => toString k ++ "BPh") ∧
-    Gen.brValues = Gen.bphClassNumbers.map (fun k => toString k ++ "BR") := by decide
+    (∀ e ∈ Gen.Ann.bphTable, e.2.2.2.2.1 ∈ Gen.Ann.bphClassNumbers ∧ e.2.2.2.2.2 ∈ Gen.Ann.bphClassNumbers) ∧
+    (∀ r ∈ Gen.Ann.mergeRules, r.2.2 ∈ Gen.Ann.bphClassNumbers) ∧
+    Gen.bphValues = Gen.Ann.bphClassNumbers.map (fun k => toString k ++ "BPh") ∧
+    Gen.brValues = Gen.Ann.bphClassNumbers.map (fun k => toString k ++ "BR") := by decide
 
 /-- every classified donor is a donor of that base in `BASE_DONORS`, typed donor by `find_pairs`; a
 torsion-dependent entry has both reference atoms among the base atoms -/
-theorem bph_donors_are_base_donors : ∀ e ∈ Gen.bphTable,
+theorem bph_donors_are_base_donors : ∀ e ∈ Gen.Ann.bphTable,
     e.2.1 ∈ donorsOf Params.gen e.1 ∧ kindOf Params.gen e.1 e.2.1 = .donor ∧
     (e.2.2.1 = "" ∧ e.2.2.2.1 = "" ∧ e.2.2.2.2.1 = e.2.2.2.2.2 ∨
-     e.2.2.1 ∈ (Gen.baseAtoms.lookup e.1).getD [] ∧ e.2.2.2.1 ∈ (Gen.baseAtoms.lookup e.1).getD []) := by
+     e.2.2.1 ∈ (Gen.Ann.baseAtoms.lookup e.1).getD [] ∧ e.2.2.2.1 ∈ (Gen.Ann.baseAtoms.lookup e.1).getD []) := by
   decide
 
 /-- **bph_class_from_donor**: the class given to a donor–oxygen contact is one of the (at most two) classes
@@ -189,7 +189,7 @@ a torsion-dependent entry it is the first class when the exact torsion test says
 it says trans (by `C03.cis_iff` the sign test is `-90° < torsion < 90°`). -/
 theorem bph_class_from_donor (r : Res) (donor : String) (dpos apos : Q3) (c : Nat)
     (h : c ∈ bphClasses Params.gen r donor dpos apos) :
-    ∃ r1 r2 cin cout, (r.base, donor, r1, r2, cin, cout) ∈ Gen.bphTable ∧ (c = cin ∨ c = cout) ∧
+    ∃ r1 r2 cin cout, (r.base, donor, r1, r2, cin, cout) ∈ Gen.Ann.bphTable ∧ (c = cin ∨ c = cout) ∧
       (r1 = "" → c = cin) := by
   obtain ⟨r1, r2, cin, cout, he, h1, h2⟩ := bphClasses_from_table r donor dpos apos c h
   refine ⟨r1, r2, cin, cout, ?_, h1, h2⟩
